@@ -1,6 +1,7 @@
 package nodes
 
 import (
+	"context"
 	"fmt"
 	"time"
 
@@ -48,49 +49,56 @@ func (s *StreamJoin) Run(ctx ExecutionContext, produce ProduceFn, metaSend MetaS
 	leftMessages := make(chan chanMessage, 10000)
 	rightMessages := make(chan chanMessage, 10000)
 
+	// The sources run in goroutines of their own, with a context that is cancelled when this function returns.
+	// They stop sending once it is cancelled: otherwise a source whose consumer has already returned
+	// (an error, or a LIMIT reached downstream) would stay blocked on a full channel forever.
+	sourcesCtx, cancelSources := context.WithCancel(ctx.Context)
+	defer cancelSources()
+	sourcesExecutionCtx := ExecutionContext{Context: sourcesCtx, VariableContext: ctx.VariableContext}
+	send := func(messages chan<- chanMessage, msg chanMessage) error {
+		select {
+		case messages <- msg:
+			return nil
+		case <-sourcesCtx.Done():
+			return sourcesCtx.Err()
+		}
+	}
+
 	go func() {
-		if err := s.left.Run(ctx, func(produceCtx ProduceContext, record Record) error {
-			leftMessages <- chanMessage{
+		if err := s.left.Run(sourcesExecutionCtx, func(produceCtx ProduceContext, record Record) error {
+			return send(leftMessages, chanMessage{
 				metadata: false,
 				record:   record,
-			}
-
-			return nil
+			})
 		}, func(ctx ProduceContext, msg MetadataMessage) error {
-			leftMessages <- chanMessage{
+			return send(leftMessages, chanMessage{
 				metadata:        true,
 				metadataMessage: msg,
-			}
-
-			return nil
+			})
 		}); err != nil {
-			leftMessages <- chanMessage{
+			send(leftMessages, chanMessage{
 				err: fmt.Errorf("couldn't run left stream join source: %w", err),
-			}
+			})
 		}
 
 		close(leftMessages)
 	}()
 
 	go func() {
-		if err := s.right.Run(ctx, func(produceCtx ProduceContext, record Record) error {
-			rightMessages <- chanMessage{
+		if err := s.right.Run(sourcesExecutionCtx, func(produceCtx ProduceContext, record Record) error {
+			return send(rightMessages, chanMessage{
 				metadata: false,
 				record:   record,
-			}
-
-			return nil
+			})
 		}, func(ctx ProduceContext, msg MetadataMessage) error {
-			rightMessages <- chanMessage{
+			return send(rightMessages, chanMessage{
 				metadata:        true,
 				metadataMessage: msg,
-			}
-
-			return nil
+			})
 		}); err != nil {
-			rightMessages <- chanMessage{
+			send(rightMessages, chanMessage{
 				err: fmt.Errorf("couldn't run right stream join source: %w", err),
-			}
+			})
 		}
 
 		close(rightMessages)
